@@ -90,7 +90,7 @@ def accepted_by_framer(c, m):
 def check(ctx, rep, cases, where='server history'):
     res = serverlib.run_both(ctx, cases)
     for c, (real, a) in zip(cases, res):
-        outs, escs, dumps, alive = real
+        outs, escs, dumps, alive, control = real
         case = {k: c[k] for k in ('frontend', 'framer', 'single', 'units', 'ignore_missing', 'broadcast', 'chunks', 'reqs', 'per_chunk')}
         case['kind'] = 'server'
         produced = sum(len(o) for o in outs)
